@@ -1,8 +1,182 @@
 import ObiVerif.Model.Header
+import ObiVerif.Model.Json
 import ObiVerif.Driver.Util
 /-! line protocol for C02 (see the header comment of `harness/c02.go` for the case-line grammar) -/
 namespace ObiVerif.Driver.C02
 open ObiVerif.Header ObiVerif.Driver
+open ObiVerif.Json (JVal JList JMems goJson)
+
+/-! ## annotation specs → model values -/
+
+/-- the table `bits:hex(strconv.FormatFloat(x, 'e', -1, 64))` of the floats of a case (data: Go's `strconv`) -/
+abbrev Floats := List (String × Bytes)
+
+def parseFloats (w : String) : Option Floats :=
+  if !w.startsWith "F=" then none else
+  let b := (w.drop 2).toString
+  if b = "-" then some [] else
+  (b.splitOn ",").mapM (fun it => match it.splitOn ":" with
+    | [bits, lit] => do pure (bits, ← unhex lit)
+    | _ => none)
+
+def floatNum (fl : Floats) (bits : String) : Option JVal :=
+  (fl.lookup bits).map (fun e => .num (ObiVerif.Json.floatLit e))
+
+def unhexE (h : String) : Option Bytes := if h = "" then some [] else unhex h
+
+def isHexC (c : Char) : Bool := ('0' ≤ c && c ≤ '9') || ('a' ≤ c && c ≤ 'f')
+
+/-- replace the value of key `k` or append the member (a Go map assignment) -/
+def JMems.set (k : Bytes) (v : JVal) : JMems → JMems
+  | .nil => .cons k v .nil
+  | .cons k' v' t => if k' = k then .cons k v t else .cons k' v' (JMems.set k v t)
+
+def JMems.ofList (l : List (Bytes × JVal)) : JMems :=
+  ObiVerif.Json.sortMems (l.foldl (fun m kv => JMems.set kv.1 kv.2 m) .nil)
+
+def JList.ofList : List JVal → JList
+  | [] => .nil
+  | v :: t => .cons v (JList.ofList t)
+
+/-- nested value terms: `S<hex>` `I<int>` `F<bits>` `T` `U` `Z` `L[t,…]` `M[<hexkey>:t,…]` -/
+def pTerm (fl : Floats) : Nat → List Char → Option (JVal × List Char)
+  | 0, _ => none
+  | _ + 1, [] => none
+  | n + 1, c :: r =>
+    if c = 'S' then do
+      let h := r.takeWhile isHexC
+      pure (.str (← unhexE (String.ofList h)), r.dropWhile isHexC)
+    else if c = 'I' then do
+      let h := r.takeWhile (fun c => c.isDigit || c = '-')
+      pure (.num (ObiVerif.Json.intLit (← (String.ofList h).toInt?)), r.dropWhile (fun c => c.isDigit || c = '-'))
+    else if c = 'F' then do
+      let h := r.takeWhile isHexC
+      pure (← floatNum fl (String.ofList h), r.dropWhile isHexC)
+    else if c = 'T' then some (.bool true, r)
+    else if c = 'U' then some (.bool false, r)
+    else if c = 'Z' then some (.null, r)
+    else if c = 'L' then
+      match r with
+      | '[' :: ']' :: r' => some (.arr .nil, r')
+      | '[' :: r' =>
+        let rec elems (k : Nat) (acc : List JVal) (s : List Char) : Option (List JVal × List Char) :=
+          match k with
+          | 0 => none
+          | k + 1 =>
+            match pTerm fl n s with
+            | none => none
+            | some (v, s') =>
+              match s' with
+              | ',' :: s'' => elems k (v :: acc) s''
+              | ']' :: s'' => some ((v :: acc).reverse, s'')
+              | _ => none
+        (elems r'.length [] r').map (fun p => (.arr (JList.ofList p.1), p.2))
+      | _ => none
+    else if c = 'M' then
+      match r with
+      | '[' :: ']' :: r' => some (.obj .nil, r')
+      | '[' :: r' =>
+        let rec mems (k : Nat) (acc : List (Bytes × JVal)) (s : List Char) : Option (List (Bytes × JVal) × List Char) :=
+          match k with
+          | 0 => none
+          | k + 1 =>
+            match unhexE (String.ofList (s.takeWhile isHexC)), s.dropWhile isHexC with
+            | some key, ':' :: s1 =>
+              match pTerm fl n s1 with
+              | none => none
+              | some (v, s') =>
+                match s' with
+                | ',' :: s'' => mems k ((key, v) :: acc) s''
+                | ']' :: s'' => some (((key, v) :: acc).reverse, s'')
+                | _ => none
+            | _, _ => none
+        (mems r'.length [] r').map (fun p => (.obj (JMems.ofList p.1), p.2))
+      | _ => none
+    else none
+
+def parseKV (w : String) (f : String → Option JVal) : Option (List (Bytes × JVal)) :=
+  if w = "" then some [] else
+  (w.splitOn ",").mapM (fun kv => match kv.splitOn "=" with
+    | [k, v] => do pure (← unhexE k, ← f v)
+    | _ => none)
+
+/-- one annotation entry `<type>.<key-hex>.<value>` (same grammar as `c02ParseAnn` of the harness) -/
+def parseEntry (fl : Floats) (e : String) : Option (Bytes × JVal) :=
+  match e.splitOn "." with
+  | [ty, k, v] => do
+    let key ← unhex k
+    let intV (x : String) : Option JVal := x.toInt?.map (fun i => .num (ObiVerif.Json.intLit i))
+    let val ← match ty with
+      | "s" => (unhexE v).map JVal.str
+      | "i" => intV v
+      | "f" => floatNum fl v
+      | "b" => some (.bool (v = "1"))
+      | "mi" => (parseKV v intV).map (fun l => .obj (JMems.ofList l))
+      | "ms" => (parseKV v (fun x => (unhexE x).map JVal.str)).map (fun l => .obj (JMems.ofList l))
+      | "li" => if v = "" then some (.arr .nil) else ((v.splitOn ",").mapM intV).map (fun l => .arr (JList.ofList l))
+      | "v" => match pTerm fl (v.length + 1) v.toList with
+        | some (t, []) => some t
+        | _ => none
+      | _ => none
+    pure (key, val)
+  | _ => none
+
+/-- annotation spec → (members without `definition`, in the encoder's order; the `definition` entry) -/
+def parseAnn (fl : Floats) (spec : String) : Option (JMems × Option Bytes) :=
+  if spec = "-" then some (.nil, none) else do
+  let es ← (spec.splitOn ";").mapM (parseEntry fl)
+  let m := JMems.ofList es
+  pure (m.dropDef, m.getDef)
+
+/-! ## canonical by-value dump of a decoded value (the harness prints the same for the real reader's value) -/
+
+def b2s (b : Bytes) : String := String.ofList (b.map (fun c => Char.ofNat c.toNat))
+
+mutual
+  def dumpVal : JVal → String
+    | .null => "Z"
+    | .bool b => if b then "B1" else "B0"
+    | .num lit => "N" ++ b2s (ObiVerif.Json.canonNum lit)
+    | .str s => "S" ++ hex s
+    | .arr l => "L[" ++ ",".intercalate (dumpElems l) ++ "]"
+    | .obj m => dumpObj (dumpMems m)
+  def dumpElems : JList → List String
+    | .nil => []
+    | .cons v t => dumpVal v :: dumpElems t
+  /-- members in reverse order (so that "first occurrence" below = last in the text: a later duplicate wins) -/
+  def dumpMems : JMems → List (String × String)
+    | .nil => []
+    | .cons k v t => dumpMems t ++ [(hex k, dumpVal v)]
+  def dumpObj (ps : List (String × String)) : String :=
+    let uniq := ps.foldl (fun acc p => if acc.any (fun q => q.1 == p.1) then acc else acc ++ [p]) []
+    let parts := (uniq.map (fun p => p.1 ++ "=" ++ p.2)).toArray.qsort (· < ·)
+    "M{" ++ ",".intercalate parts.toList ++ "}"
+end
+
+def fnv1a (s : String) : String :=
+  let h : UInt32 := s.toUTF8.foldl (fun h b => (h ^^^ b.toUInt32) * 16777619) 2166136261
+  let n := h.toNat
+  String.ofList ((List.range 8).map (fun i => hexDigit ((n >>> (4 * (7 - i))) % 16)))
+
+def digest (m : JMems) : String := fnv1a (dumpVal (.obj m))
+
+mutual
+  def dupKeysV : JVal → Bool
+    | .arr l => dupKeysL l
+    | .obj m => dupKeysM m
+    | _ => false
+  def dupKeysL : JList → Bool
+    | .nil => false
+    | .cons v t => dupKeysV v || dupKeysL t
+  def dupKeysM : JMems → Bool
+    | .nil => false
+    | .cons k v t => t.hasKey k || dupKeysV v || dupKeysM t
+end
+
+/-- every member `definition` is a string (otherwise `Definition()` formats a number: outside the model) -/
+def defsAreStr : JMems → Bool
+  | .nil => true
+  | .cons k v t => (if k = ObiVerif.Json.defKey then (match v with | .str _ => true | _ => false) else true) && defsAreStr t
 
 /-- digest of the empty annotation map (FNV-1a of the canonical dump `M{}` printed by the harness) -/
 def emptyDig : String := "3b71c82c"
@@ -30,16 +204,29 @@ def parseLib (w : String) : Option (List LibEnt) :=
 
 def libFind (es : List LibEnt) (s e : Nat) : Option LibEnt := es.find? (fun x => x.s == s && x.e == e)
 
-def mkLib (es : List LibEnt) : Lib String := fun s e =>
+/-- the span is in the model (decoded by `Model/Json.lean`) -/
+def modelDecodes (h : Bytes) (s e : Nat) : Bool :=
+  match ObiVerif.Json.decodeObj ((h.drop s).take (e - s)) with
+  | some full => defsAreStr full && !dupKeysM full
+  | none => false
+
+/-- the model asks about exactly one span: it must be one the model decodes or one the harness has asked go-json about -/
+def libCovers (es : List LibEnt) (h : Bytes) : Bool :=
+  match scanJson h with
+  | none => true
+  | some (s, e) => modelDecodes h s e || (libFind es s e).isSome
+
+def tableLib (es : List LibEnt) : Lib String := fun s e =>
   match libFind es s e with
   | some x => x.val
   | none => none
 
-/-- the model asks the library about exactly one span: it must be one the harness has asked go-json about -/
-def libCovers (es : List LibEnt) (h : Bytes) : Bool :=
-  match scanJson h with
-  | none => true
-  | some (s, e) => (libFind es s e).isSome
+/-- the JSON decoder of the model on the span; where the model does not apply (text it rejects: white space,
+    surrogate escapes, raw control characters, duplicate keys, non-string `definition` …) go-json's answer as data -/
+def mkLibH (es : List LibEnt) (h : Bytes) : Lib String := fun s e =>
+  match goJson.lib h s e with
+  | some (m, d) => if modelDecodes h s e then some (digest m, d) else tableLib es s e
+  | none => tableLib es s e
 
 def showDef : Option Bytes → String
   | none => "-"
@@ -48,7 +235,7 @@ def showDef : Option Bytes → String
 
 def hdrRun (es : List LibEnt) (h : Bytes) : String :=
   if !libCovers es h then "bad-lib" else
-  match parseJsonHeader (mkLib es) h with
+  match parseJsonHeader (mkLibH es h) h with
   | .unparsed => "none"
   | .fatal => "fatal"
   | .ok a d rest => s!"ok {a} {showDef d} {hex rest}"
@@ -73,11 +260,14 @@ def layerCheck (fm : String) (shift : UInt8) (text : Bytes) (rs : List Rec) : St
 
 /-- header parser selection: `j` = ParseFastSeqJsonHeader, `g` = ParseGuessedFastSeqHeader -/
 def headerParse (hp : String) (es : List LibEnt) (defn : Bytes) : Except String (Parsed String) :=
-  if hp = "g" ∧ defn.head? ≠ some 123 then
-    -- ParseFastSeqOBIHeader: only the empty definition is in the model
-    if defn = [] then .ok ⟨emptyDig, none⟩ else .error "obi-header"
+  if hp = "g" ∧ defn.head? ≠ some 123 ∧ defn ≠ [] then .error "obi-header"   -- ParseFastSeqOBIHeader: outside the model
   else if !libCovers es defn then .error "bad-lib"
-  else match parseFastSeqJsonHeader emptyDig (mkLib es) defn with
+  else
+    -- ParseFastSeqOBIHeader on an empty definition does nothing
+    let obi : Bytes → Option (Parsed String) := fun _ => some ⟨emptyDig, none⟩
+    let r := if hp = "g" then parseGuessed obi emptyDig (mkLibH es defn) defn
+             else parseFastSeqJsonHeader emptyDig (mkLibH es defn) defn
+    match r with
     | some p => .ok p
     | none => .error "fatal"
 
@@ -91,16 +281,22 @@ structure InRec where
   id : Bytes
   seq : Bytes
   qual : Option Bytes
+  ann : JMems
+  defn : Option Bytes
 
-def parseInRecs : Nat → List String → Option (List InRec × List String)
+def parseInRecs (fl : Floats) : Nat → List String → Option (List InRec × List String)
   | 0, rest => some ([], rest)
-  | n + 1, id :: sq :: q :: _ann :: rest => do
+  | n + 1, id :: sq :: q :: ann :: rest => do
     let id ← unhex id
     let sq ← unhex sq
     let q ← if q = "-" then some none else (unhex q).map some
-    let (rs, rest) ← parseInRecs n rest
-    pure (⟨id, sq, q⟩ :: rs, rest)
+    let (a, d) ← parseAnn fl ann
+    let (rs, rest) ← parseInRecs fl n rest
+    pure (⟨id, sq, q, a, d⟩ :: rs, rest)
   | _, _ => none
+
+/-- the hypothesis `AnnOK` of the unconditional theorems, checked on every case -/
+def annOK (a : JMems) : Bool := a.WF && !a.hasKey ObiVerif.Json.defKey
 
 def parseAug : Nat → List String → Option (List (Bytes × List LibEnt))
   | 0, [] => some []
@@ -119,8 +315,11 @@ def zipParse (hp : String) : List Rec → List (List LibEnt) → Except String (
     pure (showRec r p :: t)
 
 def rtRun (fm hp : String) (so si : UInt8) (recs : List InRec) (aug : List (Bytes × List LibEnt)) : String :=
-  let texts := (recs.zip aug).map (fun (r, a) =>
-    if fm = "fastq" then formatFastq so r.id a.1 r.seq r.qual else formatFasta r.id a.1 r.seq ++ [10])
+  if recs.any (fun r => !annOK r.ann) then "NOT-ANNOK" else
+  -- the header is printed by the model's encoder (`info goJson`), not taken from the harness
+  let texts := recs.map (fun r =>
+    if fm = "fastq" then formatFastq so r.id (info goJson r.ann r.defn) r.seq r.qual
+    else formatFasta r.id (info goJson r.ann r.defn) r.seq ++ [10])
   let text := texts.flatten
   let w := "w=" ++ hex text ++ " r="
   match parseText fm si text with
@@ -139,14 +338,27 @@ def run (line : String) : String :=
     | [m, a] => (words m, words a)
     | _ => (words line, [])
   match main with
-  | ["hdr", _] | ["hdrj", _, _] =>
-    let hl : Option (Bytes × List LibEnt) := match main, aug with
-      | ["hdr", h], [lib] => do pure (← unhex h, ← parseLib lib)
-      | ["hdrj", _, _], [h, lib] => do pure (← unhex h, ← parseLib lib)
-      | _, _ => none
-    match hl with
-    | some (h, es) => hdrRun es h
-    | none => "bad-op"
+  | ["hdr", h] =>
+    match aug with
+    | [lib] =>
+      match unhex h, parseLib lib with
+      | some h, some es => hdrRun es h
+      | _, _ => "bad-op"
+    | _ => "bad-op"
+  | ["hdrj", spec, trail] =>
+    -- header = (model encoder of the annotations) ++ trail
+    match aug with
+    | [fl, _h, lib] =>
+      match parseFloats fl, unhex trail, parseLib lib with
+      | some fl, some trail, some es =>
+        match parseAnn fl spec with
+        | some (a, d) =>
+          if !annOK a then "NOT-ANNOK" else
+          let i := info goJson a d
+          hdrRun es (i ++ trail) ++ " i=" ++ hex i
+        | none => "bad-op"
+      | _, _, _ => "bad-op"
+    | _ => "bad-op"
   | ["title", fm, t] =>
     if fm ≠ "fasta" ∧ fm ≠ "fastq" then "bad-op" else
     match unhex t with
@@ -172,12 +384,20 @@ def run (line : String) : String :=
     | _, _, _ => "bad-op"
   | "rt" :: fm :: hp :: so :: si :: n :: rest =>
     if (fm ≠ "fasta" ∧ fm ≠ "fastq") ∨ (hp ≠ "j" ∧ hp ≠ "g") then "bad-op" else
-    match byte? so, byte? si, n.toNat? with
-    | some so, some si, some n =>
-      match parseInRecs n rest, parseAug n aug with
-      | some (recs, []), some aug => rtRun fm hp so si recs aug
-      | _, _ => "bad-op"
-    | _, _, _ => "bad-op"
+    match byte? so, byte? si, n.toNat?, aug with
+    | some so, some si, some n, flw :: aug =>
+      match parseFloats flw with
+      | some fl =>
+        match parseInRecs fl n rest with
+        | some (recs, []) =>
+          -- Format*Batch(…, skipEmpty = false): `log.Fatalf("Sequence %s is empty", seq.Id())`
+          if recs.any (fun r => r.seq = []) then "w=fatal" else
+          match parseAug n aug with
+          | some aug => rtRun fm hp so si recs aug
+          | none => "bad-op"
+        | _ => "bad-op"
+      | none => "bad-op"
+    | _, _, _, _ => "bad-op"
   | _ => "bad-op"
 
 end ObiVerif.Driver.C02
